@@ -10,8 +10,11 @@ mods="unittests/allplatformstests.py unittests/platformagnostictests.py unittest
 run() { (cd "$1" && NINJA=/verif/tools/ninja PYTHONDONTWRITEBYTECODE=1 timeout 3400 /venv/bin/python -m pytest -q -p no:cacheprovider -n 6 $mods 2>&1) > "$2.full"
         grep -E "^(FAILED|ERROR) unittests" "$2.full" | sed 's/ - .*//' | sort > "$2"; echo "$1: $(tail -1 "$2.full")"; }
 run "$wt" /dev/shm/ut_base.$$
-run /repo /dev/shm/ut_head.$$
+wth=/tmp/verif-headwt.$$            # never run upstream's tests inside /repo itself: some of them write into their test-case directories
+git -C /repo worktree add --detach -q "$wth" HEAD || exit 2
+run "$wth" /dev/shm/ut_head.$$
 git -C /repo worktree remove --force "$wt"
+git -C /repo worktree remove --force "$wth"
 if diff /dev/shm/ut_base.$$ /dev/shm/ut_head.$$ > /dev/shm/ut_diff.$$; then echo "SAME failing set ($(wc -l < /dev/shm/ut_head.$$) tests fail on both trees)"; rc=0
 else echo "DIFFERENT:"; cat /dev/shm/ut_diff.$$; rc=1; fi
 rm -f /dev/shm/ut_base.$$* /dev/shm/ut_head.$$* /dev/shm/ut_diff.$$
